@@ -299,7 +299,9 @@ def stuck_cycles(func):
     from .facts import strip
     out = []
     live = reachable_blocks(func)
-    for comp in _sccs(func, live):
+    work = [c for c in _sccs(func, live)]
+    while work:
+        comp = work.pop()
         cs = set(comp)
         if len(comp) == 1 and comp[0] not in func.blocks[comp[0]].succs:
             continue
@@ -329,9 +331,86 @@ def stuck_cycles(func):
                     impure = True
         if impure:
             continue
+        # close the set under dependence inside the loop: a variable assigned from, or under a branch on, other
+        # variables changes when those change (a "keep going" flag cleared depending on what a search found,
+        # the search starting at an offset advanced elsewhere in the loop).  Widening the set only makes the rule
+        # accept more; it stays a necessary condition for termination.
+        def refs(n):
+            return {x['ref']['id'] for x in n.walk()
+                    if x.k == 'DeclRefExpr' and x['ref'].get('kind') in ('var', 'parm')} if n is not None else set()
+        deps = {}
+        changed = True
+        while changed:
+            changed = False
+            assigned_here = False
+            for b in comp:
+                for e in func.blocks[b].elems:
+                    tgt, src = None, None
+                    if e.k in ('BinaryOperator', 'CompoundAssignOperator') and (e.get('op') == '=' or e.k == 'CompoundAssignOperator'):
+                        l = strip(e.ch[0])
+                        if l is not None and l.k == 'DeclRefExpr':
+                            tgt, src = l['ref'].get('id'), e.ch[1]
+                    elif e.k == 'DeclStmt':
+                        for d in e['decls']:
+                            if d['id'] in vars_ and d.get('init', -1) != -1:
+                                deps.setdefault(d['id'], set()).update(refs(func.nodes[d['init']]))
+                                new = refs(func.nodes[d['init']]) - vars_
+                                if new:
+                                    vars_ |= new
+                                    changed = True
+                                assigned_here = True
+                    elif e.k == 'UnaryOperator' and e.get('op') in ('++', '--'):
+                        l = strip(e.ch[0])
+                        if l is not None and l.k == 'DeclRefExpr' and l['ref'].get('id') in vars_:
+                            assigned_here = True
+                    if tgt is not None and tgt in vars_:
+                        assigned_here = True
+                        deps.setdefault(tgt, set()).update(refs(src))
+                        if e.k == 'CompoundAssignOperator':
+                            deps[tgt].add(tgt)
+                        new = refs(src) - vars_
+                        if new:
+                            vars_ |= new
+                            changed = True
+            if assigned_here:
+                for b in comp:
+                    c = func.blocks[b].cond
+                    if c is not None and not any(x.k == 'CallExpr' and x.get('callee') not in PURE_CALLS for x in c.walk()):
+                        new = refs(c) - vars_
+                        if new:
+                            vars_ |= new
+                            changed = True
+
+        def on_cycle(v):
+            seen, todo = set(), list(deps.get(v, ()))
+            while todo:
+                x = todo.pop()
+                if x == v:
+                    return True
+                if x not in seen:
+                    seen.add(x)
+                    todo += list(deps.get(x, ()))
+            return False
+
+        def recomputed(tgt, src):
+            """the assignment gives tgt a value computed from other variables only, none of which is fed by tgt:
+            unless one of THOSE changes, tgt gets the value it had (a search result taken again from the same
+            start, a length measured again) - that is not progress"""
+            if src is None or not refs(src):
+                return False
+            if any(x.k == 'CallExpr' and x.get('callee') not in PURE_CALLS for x in src.walk()):
+                return False
+            if any(x.k == 'DeclRefExpr' and (x['ref'].get('staticStorage') or x['ref'].get('fileScope')) for x in src.walk()):
+                return False
+            return not on_cycle(tgt)
 
         def progresses(blk):
             for e in blk.elems:
+                if e.k == 'BinaryOperator' and e.get('op') == '=':
+                    l0 = strip(e.ch[0])
+                    if l0 is not None and l0.k == 'DeclRefExpr' and l0['ref'].get('id') in vars_ and \
+                            recomputed(l0['ref']['id'], e.ch[1]):
+                        continue
                 if e.k in ('BinaryOperator', 'CompoundAssignOperator') and (e.get('op') == '=' or e.k == 'CompoundAssignOperator'):
                     l = strip(e.ch[0])
                     while l is not None and l.k in ('ArraySubscriptExpr', 'MemberExpr') or \
@@ -358,7 +437,7 @@ def stuck_cycles(func):
                             return True
                 if e.k == 'DeclStmt':
                     for d in e['decls']:
-                        if d['id'] in vars_ and d.get('init', -1) != -1:
+                        if d['id'] in vars_ and d.get('init', -1) != -1 and not recomputed(d['id'], func.nodes[d['init']]):
                             return True
             return False
         stay = {b for b in comp if not progresses(func.blocks[b])}
@@ -366,6 +445,13 @@ def stuck_cycles(func):
         sub = [c for c in _sccs_sub(func, stay)]
         for c in sub:
             if len(c) > 1 or c[0] in [s for s in func.blocks[c[0]].succs if s in stay]:
+                if set(c) != cs and any(
+                        func.blocks[b].cond is not None and any(s2 not in c for s2 in func.blocks[b].succs) for b in c):
+                    # a smaller cycle with branches of its own (an inner loop, or a `continue` path): judged as a
+                    # loop in its own right against ITS exit conditions - which include this loop's when it is the
+                    # path that skips the progress statement
+                    work.append(list(c))
+                    continue
                 out.append((comp, [b.cond for b in exits], c[0]))
                 break
     return out
